@@ -165,6 +165,33 @@ func VerifAPIIsolation() {
 	_, werr := p.AddToBalance(txb, &A, fat2.PTickerUSD, 1)
 	cerr := txb.Commit()
 	vrt.Assert("C18.next-block-commits-after-any-api-request", werr == nil && cerr == nil)
+	// ---- (d) the sync loop bumps its in-memory height before the block is committed: a rich-list
+	// request that lands in that window sees Synced = 11 while block 11's rates are still pending.
+	// Whatever it does with that, what sync computes for block 11 afterwards is what it computes alone.
+	d6 := new(node.Pegnetd)
+	d6.Pegnet = p
+	d6.Sync = &pegnet.BlockSync{Synced: 11}
+	s6 := &APIServer{Node: d6}
+	tx11, err := db.Begin()
+	if err != nil {
+		panic(err)
+	}
+	for _, t := range []fat2.PTicker{fat2.PTickerUSD, fat2.PTickerXBT} {
+		if _, err := tx11.Exec("INSERT INTO pn_rate (height, token, value) VALUES ($1, $2, $3)", 11, t.String(), vrt.URange("rate11", 1, 1<<40)); err != nil {
+			panic(err)
+		}
+	}
+	_ = s6.getRichList(ctx, vrt.Blob(ParamsGetRichList{Asset: "pUSD", Count: 5}))
+	if err := tx11.Commit(); err != nil {
+		panic(err)
+	}
+	withReq := d6.GetPegNetRateAverages(ctx, 11).(map[fat2.PTicker]uint64)
+	d7 := new(node.Pegnetd)
+	d7.Pegnet = p
+	d7.Sync = &pegnet.BlockSync{Synced: 11}
+	alone := d7.GetPegNetRateAverages(ctx, 11).(map[fat2.PTicker]uint64)
+	vrt.Assert("C18.request-between-height-bump-and-commit-does-not-change-what-sync-computes",
+		withReq[fat2.PTickerUSD] == alone[fat2.PTickerUSD] && withReq[fat2.PTickerXBT] == alone[fat2.PTickerXBT])
 	vrt.Cover("ran")
 	vrt.Assert("C18.no-data-race-between-api-and-sync", vrt.Races() == 0)
 }
